@@ -116,6 +116,22 @@ def sample(behs, n, seed):
     return behs[:n]
 
 
+def stratified(behs, per, seed):
+    """per construct, `per` of the shortest schedules (seeded choice among equally long ones): in the abort
+    scenarios these are the ones in which the failure comes while most of the input is still unread"""
+    rnd = random.Random(seed)
+    groups = {}
+    for b in behs:
+        groups.setdefault(b["cfg"]["c"], []).append(b)
+    out = []
+    for c in sorted(groups):
+        g = groups[c]
+        rnd.shuffle(g)
+        g.sort(key=lambda b: len(b["steps"]))
+        out += g[:per]
+    return out
+
+
 def nontrivial(b):
     """at least one item fails, or a user function is released while others are held"""
     return bool(b["cfg"]["faults"]) or any(s["op"] == "rel" for s in b["steps"])
